@@ -83,73 +83,61 @@ fn recovered_index_entry(hash: u64, sequence: Sequence, addr: EntryAddressOrTomb
         addr matches EntryAddressOrTombstone::EntryAddress(a) ==> r == Some(HashedEntryAddress { hash, address: a }), // @label winning_entry_is_indexed_under_its_own_hash_and_address
 //@end
 
-// ---- BlockRecoverRunner::run: what one scanner answer means for the recovery of that block (C03: in the default quiet
-// mode a damaged block ends ITS scan, recovery itself does not fail; strict mode reports the error)
+// ---- BlockRecoverRunner::run, one round of its `'recover` loop (from the scanner's answer to the end of the loop body):
+// C03: in the default quiet mode a damaged block ends ITS scan, recovery itself does not fail; strict mode reports the
+// error. C07 / C01: the entries of a scanned blob are appended while their sequences do not fall below the LAST ENTRY
+// RECOVERED SO FAR IN THIS BLOCK (also across blob boundaries: a stale blob of an earlier generation of the block ends
+// the recovery of the block), and the recovery stops exactly at the first regression.
 //@item foyer-storage/src/engine/mod.rs :: enum RecoverMode rules=derive-structural
 #[derive(Debug)] pub struct Error { }
 pub type Result<T> = core::result::Result<T, Error>;
-pub enum ScanStep { Got(Vec<EntryInfo>), Stop }
-//@region foyer-storage/src/engine/block/recover.rs :: impl~^impl BlockRecoverRunner$/fn run name=on_scan_result start=/let infos = match r \{/ stmts=1 rules=drop-tracing
-//@head
-#[verifier::exec_allows_no_decreases_clause]
-fn on_scan_result(mode: RecoverMode, r: Result<Option<Vec<EntryInfo>>>, id: BlockId) -> (out: Result<ScanStep>)
-    ensures
-        r is Ok && r.unwrap() is Some ==> out is Ok && out.unwrap() == ScanStep::Got(r.unwrap().unwrap()), // @label scanned_entries_are_taken_as_reported
-        r is Ok && r.unwrap() is None ==> out is Ok && out.unwrap() is Stop, // @label end_of_block_ends_the_scan
-        r is Err && mode == RecoverMode::Strict ==> out is Err, // @label strict_mode_reports_the_error
-        r is Err && mode != RecoverMode::Strict ==> out is Ok && out.unwrap() is Stop, // @label quiet_recovery_skips_the_rest_of_a_damaged_block_instead_of_failing
-//@prologue
-    loop
-        ensures (r is Ok && r.unwrap() is None) || (r is Err && mode != RecoverMode::Strict),
-    {
-//@tail
-        return Ok(ScanStep::Got(infos));
-    }
-    Ok(ScanStep::Stop)
-//@end
-
-// ---- BlockRecoverRunner::run: entries of one scanned blob are appended while sequences do not regress
 pub open spec fn nondecreasing(s: Seq<EntryInfo>) -> bool {
     forall|i: int, j: int| 0 <= i <= j < s.len() ==> s[i].addr.sequence <= s[j].addr.sequence
 }
-/// stands for `recovered.last().map(|last: &EntryInfo| last.addr.sequence)` (closure)
-#[verifier::external_body]
-pub fn verif_last_seq(l: Option<&EntryInfo>) -> (r: Option<Sequence>)
-    ensures l.is_some() == r.is_some(), l.is_some() ==> r.unwrap() == l.unwrap().addr.sequence,
-{ unimplemented!() }
-
-//@region foyer-storage/src/engine/block/recover.rs :: impl~^impl BlockRecoverRunner$/fn run name=append_blob_entries start=/for info in infos \{/ stmts=1 sub=@recovered\.last\(\)\.map\(\|last: &EntryInfo\| last\.addr\.sequence\)@verif_last_seq(recovered.last())@
+//@region foyer-storage/src/engine/block/recover.rs :: impl~^impl BlockRecoverRunner$/fn run name=recover_round start=/let infos = match r \{/ stmts=99 rules=drop-tracing,option-map
 //@head
 #[verifier::exec_allows_no_decreases_clause]
-fn append_blob_entries(recovered: &mut Vec<EntryInfo>, infos: Vec<EntryInfo>) -> (stopped_g: Ghost<bool>)
+fn recover_round(mode: RecoverMode, r: Result<Option<Vec<EntryInfo>>>, recovered: &mut Vec<EntryInfo>, id: BlockId) -> (out: Result<bool>)
     requires nondecreasing(old(recovered)@),
     ensures
-        nondecreasing(final(recovered)@), // @label recovered_list_never_regresses_in_sequence
-        exists|n: int| 0 <= n <= infos@.len() && final(recovered)@ == old(recovered)@ + infos@.subrange(0, n)
-            && (stopped_g@ ==> n < infos@.len() && final(recovered)@.len() > 0 && infos@[n].addr.sequence < final(recovered)@.last().addr.sequence)
-            && (!stopped_g@ ==> n == infos@.len()), // @label stops_exactly_at_the_first_regression
-//@before /for info in infos \{/
+        nondecreasing(final(recovered)@), // @label recovered_list_never_regresses_in_sequence_also_across_blobs
+        r is Err && mode == RecoverMode::Strict ==> out is Err && final(recovered)@ == old(recovered)@, // @label strict_mode_reports_the_error
+        r is Err && mode != RecoverMode::Strict ==> out == Ok::<bool, Error>(false) && final(recovered)@ == old(recovered)@, // @label quiet_recovery_skips_the_rest_of_a_damaged_block_instead_of_failing
+        r is Ok && r.unwrap() is None ==> out == Ok::<bool, Error>(false) && final(recovered)@ == old(recovered)@, // @label end_of_block_ends_the_scan
+        r is Ok && r.unwrap() is Some ==> ({
+            let infos = r.unwrap().unwrap()@;
+            exists|n: int| 0 <= n <= infos.len() && final(recovered)@ == old(recovered)@ + #[trigger] infos.subrange(0, n)
+                && (n < infos.len() ==> out == Ok::<bool, Error>(false) && final(recovered)@.len() > 0 && infos[n].addr.sequence < final(recovered)@.last().addr.sequence)
+                && (n == infos.len() ==> out == Ok::<bool, Error>(true))
+        }), // @label entries_are_taken_as_reported_and_recovery_stops_exactly_at_the_first_regression
+//@prologue
     let ghost mut stopped = false;
+    let ghost mut got: Seq<EntryInfo> = Seq::empty();
     'recover: loop
         invariant_except_break !stopped, recovered@ == old(recovered)@, nondecreasing(recovered@),
         ensures
             nondecreasing(recovered@),
-            exists|n: int| 0 <= n <= infos@.len() && recovered@ == old(recovered)@ + infos@.subrange(0, n)
-                && (stopped ==> n < infos@.len() && recovered@.len() > 0 && infos@[n].addr.sequence < recovered@.last().addr.sequence)
-                && (!stopped ==> n == infos@.len()),
+            (r is Err && mode != RecoverMode::Strict || r is Ok && r.unwrap() is None) ==> recovered@ == old(recovered)@,
+            r is Ok && r.unwrap() is Some ==> stopped && exists|n: int| 0 <= n < got.len() && got == r.unwrap().unwrap()@ && recovered@ == old(recovered)@ + #[trigger] got.subrange(0, n)
+                && recovered@.len() > 0 && got[n].addr.sequence < recovered@.last().addr.sequence,
+            r is Err ==> mode != RecoverMode::Strict,
     {
 //@loop 1 iter=it
                 invariant
-                    !stopped,
-                    nondecreasing(recovered@),
+                    !stopped, got == infos@, r is Ok && r.unwrap() is Some && r.unwrap().unwrap()@ == infos@,
+                    nondecreasing(recovered@), // @label recovered_list_never_regresses_in_sequence_also_across_blobs
                     recovered@ == old(recovered)@ + infos@.subrange(0, it.index@ as int),
+//@before /for info in infos \{/
+            proof { got = infos@; assert(infos@.subrange(0, 0) =~= Seq::<EntryInfo>::empty()); assert(recovered@ =~= old(recovered)@ + infos@.subrange(0, 0)); }
 //@before /break 'recover;/
                     proof { stopped = true; }
+//@after /recovered\.push\(info\);/
+                proof { assert(infos@.subrange(0, it.index@ + 1) =~= infos@.subrange(0, it.index@ as int).push(info)); }
 //@tail
-        proof { assert(infos@.subrange(0, infos@.len() as int) == infos@); }
-        break 'recover;
+        proof { assert(recovered@ == old(recovered)@ + got.subrange(0, got.len() as int)); }
+        return Ok(true);
     }
-    Ghost(stopped)
+    Ok(false)
 //@end
 
 } // verus!
